@@ -569,14 +569,14 @@ async fn directed(inst: &mut Inst, out: &mut Out, which: u64) {
     let mut scn = new_scn(inst, 1000 + which, if which == 4 { 2 } else { 1 }, 0).await;
     let d = |k: i64, ms: i64| BASE + k * DAY + ms;
     match which {
-        0 => { // K1a: synchronised update, same room, another day: the old day keeps its count and hash
+        0 => { // repaired (4510e5f), must pass: synchronised update, same room, another day
             s_nodes(inst, &mut scn, 0, vec![(None, 1, d(0, 5000)), (None, 1, d(0, 6000))]).await;
             do_compute(inst, &mut scn).await; do_check(inst, &mut scn).await;
             tick(&mut scn, d(2, 50));
             s_nodes(inst, &mut scn, 0, vec![(Some(0), 1, d(1, 7000))]).await;
             do_compute(inst, &mut scn).await; do_check(inst, &mut scn).await;
         }
-        1 => { // K1b: reference deletion: the source row moves to today, its old day is not marked
+        1 => { // repaired (f14488a), must pass: reference deletion, the source row moves to today
             l_create(inst, &mut scn, 1, Some(0), false).await;
             l_create(inst, &mut scn, 1, Some(0), false).await;
             l_addref(inst, &mut scn, 0, 1).await;
@@ -588,14 +588,17 @@ async fn directed(inst: &mut Inst, out: &mut Out, which: u64) {
             l_delref(inst, &mut scn, 0, 1).await; // no edge left: nothing is marked at all
             do_check(inst, &mut scn).await;
         }
-        2 => { // K1c: tombstone naming an older version of the row (the version moved by a covered local update)
+        2 => { // repaired (ad91329 + 9c2e3ca), must pass: tombstone naming an older version of the row: the newer version stays
             l_create(inst, &mut scn, 1, Some(0), false).await;
             let v0 = scn.nodes[0].mdate;
             tick(&mut scn, d(1, 10));
             l_update(inst, &mut scn, 0, 1, None, false).await;
             do_check(inst, &mut scn).await;
             tick(&mut scn, d(3, 10));
-            s_delnodes(inst, &mut scn, 0, vec![(0, 1, v0, d(2, 77))]).await; // deletes the day-1 row, marks day 0 and day 2
+            s_delnodes(inst, &mut scn, 0, vec![(0, 1, v0, d(2, 77))]).await;
+            do_compute(inst, &mut scn).await; do_check(inst, &mut scn).await;
+            let v1 = scn.nodes[0].mdate;
+            s_delnodes(inst, &mut scn, 0, vec![(0, 1, v1 + 5, d(2, 99))]).await; // names a later date: removes the stored version, whose own day must be marked
             do_compute(inst, &mut scn).await; do_check(inst, &mut scn).await;
         }
         3 => { // K2: same three rows, one pass (canonical) ...
@@ -701,7 +704,8 @@ async fn random_case(inst: &mut Inst, out: &mut Out, rng: &mut Rng, case_no: u64
                             let end = (sh.mdate.div_euclid(DAY) + 1) * DAY - 1;
                             if rng.chance(1, 5) { sh.mdate - rng.range(0, 3) } else { (sh.mdate + 1 + rng.range(0, 500)).min(end) }
                         } else { match rng.below(4) { 0 => sh.mdate + 1 + rng.range(0, 100), 1 => sh.mdate + DAY * rng.range(1, 2), 2 => sh.mdate - rng.range(0, 2), _ => (sh.mdate.div_euclid(DAY) + 1) * DAY } };
-                        vs.push((Some(ni), sh.ent, md.max(scn.t0 + 5)));
+                        let ent = if !clean && rng.chance(1, 12) { 3 - sh.ent } else { sh.ent }; // rarely: the version arrives under another entity
+                        vs.push((Some(ni), ent, md.max(scn.t0 + 5)));
                     }
                 }
                 s_nodes(inst, &mut scn, room, vs).await;
